@@ -196,10 +196,15 @@ pub fn arr_into_vec<const N: usize>(a: [u8; N]) -> (r: Vec<u8>)
     ensures r@ == a@
 { a.to_vec() }
 
+pub uninterp spec fn utf8(s: Seq<char>) -> Seq<u8>;
 #[verifier::external_body]
 pub fn string_as_bytes(s: &String) -> (r: &[u8])
-    ensures r@ == s@.map_values(|c: char| c as u8), str_is_ascii(s@)
+    ensures r@ == utf8(s@)
 { s.as_bytes() }
+#[verifier::external_body]
+pub fn string_len(s: &String) -> (r: usize)
+    ensures r == utf8(s@).len(), r <= 0x7fff_ffff_ffff_ffff
+{ s.len() }
 
 pub uninterp spec fn str_is_ascii(s: Seq<char>) -> bool;
 
@@ -307,8 +312,7 @@ pub broadcast group group_le { lemma_le_len16, lemma_le_len32, lemma_le_len64, a
 // ---------------------------------------------------------------------------------------
 // str / slice shims (D8): documented std behaviour, assumed; validated natively (thorough)
 
-/// UTF-8 bytes of a char sequence (a function of the chars; uninterpreted)
-pub uninterp spec fn utf8(s: Seq<char>) -> Seq<u8>;
+/// (utf8: UTF-8 bytes of a char sequence, a function of the chars; declared above)
 
 #[verifier::external_body]
 pub broadcast proof fn axiom_str_bytes(s: &str)
